@@ -415,6 +415,17 @@ func genHistory(g *common.Gen, r *common.Rand) {
 			g.Stat("op-expressl")
 			continue
 		}
+		if !dummyClock && !fires[t+1000000+marginUs] && r.Chance(1, 45) {
+			// the application registers a route while the face cannot send: the engine's own command Interest
+			// (lifetime 1 s) stays pending inside the engine and times out there
+			g.Op("mgmtf %s @%d", common.NameText(uni(1, 2)), t)
+			g.Stat("op-mgmtf")
+			fires[t+1000000+marginUs] = true
+			if t+1000000 > maxDeadline {
+				maxDeadline = t + 1000000
+			}
+			continue
+		}
 		if r.Chance(1, 14) {
 			base := uni(1, 2)
 			kind := common.Pick(r, []string{"none", "sha", "ecc", "ecc", "short", "short"})
@@ -768,6 +779,26 @@ type hist struct {
 	onCb func()
 	// express: the application's reused name buffer
 	nameBuf enc.Name
+	// mgmtf: a management command was issued in this history (its Interest is pending inside the engine)
+	mgmtUsed bool
+	dead     bool
+}
+
+// exitAfterLine: the engine of the current history is locked up for good (a goroutine of the bubble blocks for ever
+// while holding the engine's PIT lock): the bubble can never finish, so the process ends once the verdict is written
+var exitAfterLine bool
+
+// engineLocked: some goroutine is blocked sending the result of a management command (ExecMgmtCmd's callback) —
+// that callback runs inside the timeout sweep / onData, i.e. under the engine's PIT lock, and nobody receives
+func engineLocked() bool {
+	buf := make([]byte, 1<<20)
+	buf = buf[:runtime.Stack(buf, true)]
+	for _, g := range strings.Split(string(buf), "\n\n") {
+		if strings.Contains(g, "[chan send") && strings.Contains(g, "ExecMgmtCmd") {
+			return true
+		}
+	}
+	return false
 }
 
 func (h *hist) rel(t time.Time) int64 { return t.Sub(h.start).Microseconds() }
@@ -901,10 +932,33 @@ func (h *hist) execOp(op string) string {
 		}
 	}
 	synctest.Wait()
+	if h.dead {
+		return "dead"
+	}
+	if h.mgmtUsed && engineLocked() {
+		h.dead, exitAfterLine = true, true
+		return "pre=" + fmtPre(h.take()) + " res=HANG-engine-locked cb=-"
+	}
 	pre := fmtPre(h.take())
 	h.drainFace()
 	res := "bad-op"
 	switch f[0] {
+	case "mgmtf":
+		// mgmtf <name>: the application registers a route (Engine.RegisterRoute -> ExecMgmtCmd) while the face cannot
+		// send: the call fails at once; the command Interest stays pending inside the engine for its lifetime (1 s)
+		if h.dt != nil {
+			res = "skip" // the dummy clock runs timers inside MoveForward, on the harness's own goroutine
+			break
+		}
+		h.face.fail = true
+		err := h.eng.RegisterRoute(common.ParseNameText(f[1]))
+		h.face.fail = false
+		h.mgmtUsed = true
+		res = "ok"
+		if err != nil {
+			res = "senderr"
+		}
+		h.drainFace()
 	case "express", "expressl", "expressf":
 		// expressl: the answer (Data or Nack) comes back from WITHIN the face's Send;
 		// expressf: the face's Send fails
@@ -1233,6 +1287,10 @@ func execMain(t *testing.T) {
 				}
 				w.WriteString(op + " => " + strings.ReplaceAll(out, "\n", "\\n") + "\n")
 				w.Flush()
+				if exitAfterLine {
+					f.Close()
+					os.Exit(0)
+				}
 			}
 			// let every remaining timer fire so that no goroutine outlives the bubble
 			time.Sleep(2 * time.Hour)
